@@ -705,8 +705,65 @@ fn fixed_case(src: &str, orig: u16, texts: &[&str], labels: &[(&str, usize)], br
     }
 }
 
+/// A program longer than 32,768 words: a statement, one `.blkw` of `gap` words, two statements.
+/// The addresses asked for lie on both sides of origin + 0x7FFF / 0x8000 (word distances that do
+/// not fit a signed 16-bit number) and at both ends of the program.
+fn far_case(tag: &'static str, orig: u16, gap: u16, table: bool) -> SrcCase {
+    let blk = format!(".blkw x{:X}", gap);
+    let src = format!(".orig x{:04X}\nfirst add r0 r0 #1\nbig {}\nfar halt\nlast: .fill x7\n", orig, blk);
+    let mut texts = vec!["add r0 r0 #1".to_string()];
+    texts.extend(std::iter::repeat(blk.clone()).take(gap as usize));
+    texts.push("halt".to_string());
+    texts.push(".fill x7".to_string());
+    let n = texts.len() as u32;
+    let mut at: Vec<u32> = vec![0, 1, 2, 0x7FFE, 0x7FFF, 0x8000, 0x8001, 0x8002, gap as u32 - 1, gap as u32, gap as u32 + 1, gap as u32 + 2, gap as u32 + 3];
+    at.retain(|k| *k <= n + 1);
+    at.sort();
+    at.dedup();
+    let labels = vec![("first".to_string(), 0usize), ("big".to_string(), 1), ("far".to_string(), gap as usize + 1), ("last".to_string(), gap as usize + 2)];
+    let mut cmds = Vec::new();
+    if table {
+        for k in &at {
+            let a = orig as u32 + k;
+            if a < 0xFE00 {
+                cmds.push(Cmd::BreakAdd(Loc::Addr(a as u16)));
+            }
+        }
+        cmds.push(Cmd::BreakAdd(Loc::Label("far".into(), 0)));
+        cmds.push(Cmd::BreakAdd(label_loc("big", 0x7FFF)));
+        cmds.push(Cmd::BreakListB);
+    } else {
+        cmds.push(Cmd::AsmB(Loc::Addr(orig.wrapping_sub(1))));
+        for k in &at {
+            cmds.push(Cmd::AsmB(Loc::Addr((orig as u32 + k) as u16)));
+        }
+        for (l, _) in &labels {
+            cmds.push(Cmd::PrintMem(Loc::Label(l.clone(), 0)));
+            cmds.push(Cmd::AsmB(Loc::Label(l.clone(), 0)));
+            cmds.push(Cmd::BreakAdd(Loc::Label(l.clone(), 0)));
+            cmds.push(Cmd::Goto(Loc::Label(l.clone(), 0)));
+            cmds.push(Cmd::AsmB(Loc::Pc(0)));
+        }
+        cmds.push(Cmd::AsmB(label_loc("big", 0x7FFF)));
+        cmds.push(Cmd::AsmB(label_loc("far", -0x8000)));
+        cmds.push(Cmd::BreakList);
+        cmds.push(Cmd::Registers);
+    }
+    cmds.push(Cmd::Exit);
+    SrcCase { tag, stack: false, fuel: 20_000, inp: vec![], src, orig, texts, breaks: vec![], labels, cmds }
+}
+
 /// Witnesses of the defects in this domain (D19, D23) and of the shapes the property names.
 pub fn c17_corpus() -> Vec<SrcCase> {
+    let mut v = c17_corpus_small();
+    // statements 0x8000 words and more after the first one
+    v.push(far_case("V17", 0x3000, 0x8000, false));
+    v.push(far_case("V17", 0x0001, 0xC000, false));
+    v.push(far_case("V17", 0x7FFE, 0x7FF0, false));
+    v
+}
+
+fn c17_corpus_small() -> Vec<SrcCase> {
     vec![
         // D23: a statement at byte 0 of the file that consumes no operand
         fixed_case("halt\nadd r0 r0 #1\n", 0x3000, &["halt", "add r0 r0 #1"], &[], &[], false),
@@ -959,6 +1016,27 @@ pub fn c17_table_corpus() -> Vec<SrcCase> {
         texts.push(".fill #-1");
         v.push(fixed_table_case(&src, 0x4000, &texts, &[("msg", 0), ("k", words)], &[], &[]));
     }
+    // one table holding a text of 26 one-byte characters (fits) next to shorter texts that are longer
+    // in BYTES (2-, 3- and 4-byte characters: they fit as well)
+    {
+        let a = ".stringz \"abcdefghijklmno\"";
+        let b = ".stringz \"\u{e4}\u{f6}\u{fc}\u{df}\u{e9}\u{e8}\u{ea}\u{eb}\u{e7}\u{f1}\u{e5}\"";
+        let c = ".stringz \"\u{2192}\u{2190}\u{2191}\u{2193}\u{20ac}\u{221e}\u{2260}\u{2264}\"";
+        let d = ".stringz \"\u{1f600}\u{1f601}\u{1f602}\u{1f603}\u{1f604}\"";
+        let src = format!(".orig x4000\nm1 {}\nm2 {}\nm3 {}\nm4 {}\nk .fill #-1\n", a, b, c, d);
+        let mut texts: Vec<&str> = Vec::new();
+        let mut labels: Vec<(&str, usize)> = Vec::new();
+        for (l, t, w) in [("m1", a, 16usize), ("m2", b, 12), ("m3", c, 9), ("m4", d, 6)] {
+            labels.push((l, texts.len()));
+            texts.extend(std::iter::repeat(t).take(w));
+        }
+        labels.push(("k", texts.len()));
+        texts.push(".fill #-1");
+        v.push(fixed_table_case(&src, 0x4000, &texts, &labels, &[], &[]));
+    }
+    // statements 0x8000 words and more after the first one
+    v.push(far_case("B17", 0x3000, 0x8000, true));
+    v.push(far_case("B17", 0x0001, 0xC000, true));
     v
 }
 
